@@ -240,7 +240,24 @@ func (f *fnState) cellBase(key, sort string) SV {
 	}
 	f.cellSort[key] = sort
 	n := key + "!0"
-	f.declare(n, sort)
+	if !f.declared[n] {
+		f.declare(n, sort)
+		// the entry heap is closed: every reference stored in it designates memory allocated before entry
+		var refOf string
+		switch sort {
+		case "(Array Loc Slice)":
+			refOf = "(l-ref (s-loc (select %s hk)))"
+		case "(Array Loc Loc)":
+			refOf = "(l-ref (select %s hk))"
+		case "(Array Loc Iface)":
+			refOf = "(l-ref (i-ptr (select %s hk)))"
+		}
+		if refOf != "" && key != "G$nextref" {
+			f.declare("G$nextref!0", sInt)
+			r := fmt.Sprintf(refOf, sym(n))
+			f.emit(fmt.Sprintf("(assert (forall ((hk Loc)) (! (< %s |G$nextref!0|) :pattern ((select %s hk)))))", r, sym(n)))
+		}
+	}
 	return SV{Sort: sort, T: sym(n)}
 }
 
@@ -828,6 +845,8 @@ func (f *fnState) loopHead(l *loopInfo) {
 	f.curPos = firstPos(h)
 	invs := f.invariantsFor(l)
 	ctx := f.specCtx(nil)
+	ctx.locals = true
+	ctx.invLoop = l
 	for _, c := range invs {
 		t := f.specBool(c.E, ctx)
 		f.oblige("INV-ENTRY", c.Label, fmt.Sprintf("loop %d: %s", l.ordinal, normSite(c.Text)), t)
@@ -861,8 +880,14 @@ func (f *fnState) loopHead(l *loopInfo) {
 		f.cur.cells[k] = SV{Sort: s, T: f.fresh(name, s)}
 	}
 	n := f.fresh(fmt.Sprintf("loop%d_iter", l.ordinal), sBool)
+	if f.reach != "true" {
+		// being in some iteration implies the loop was entered: facts about unmodified state carry over
+		f.emit(fmt.Sprintf("(assert (=> %s %s))", n, f.reach))
+	}
 	f.reach = n
 	ctx = f.specCtx(nil)
+	ctx.locals = true
+	ctx.invLoop = l
 	for _, c := range invs {
 		f.assume(f.specBool(c.E, ctx))
 	}
@@ -932,12 +957,54 @@ func (f *fnState) structInvariants(l *loopInfo, class string) {
 			lo = "0"
 		}
 		g := fmt.Sprintf("(>= %s %s)", v.T, lo)
+		if up := f.rangeUpper(l, k); up != "" {
+			// completed iterations never exceed the length fixed when the loop was entered
+			if strings.HasPrefix(k, "R:") {
+				g = fmt.Sprintf("(and %s (<= %s %s))", g, v.T, up)
+			} else {
+				g = fmt.Sprintf("(and %s (<= (+ %s 1) %s))", g, v.T, up)
+			}
+		}
 		if class == "" {
 			f.assume(g)
 		} else {
 			f.oblige("STRUCT", "", fmt.Sprintf("loop %d: range position >= %s", l.ordinal, lo), g)
 		}
 	}
+}
+
+// rangeUpper returns the length term of the range loop whose position cell is key ("" if unknown).
+func (f *fnState) rangeUpper(l *loopInfo, key string) string {
+	h := l.header
+	if len(h.Instrs) == 0 {
+		return ""
+	}
+	if strings.HasPrefix(key, "R:") {
+		return "" // map ranges: the length is read at each Next
+	}
+	// the header of this loop must be the one that loads this rangeindex cell
+	owns := false
+	for _, ins := range h.Instrs {
+		if u, ok := ins.(*ssa.UnOp); ok {
+			if a, ok := u.X.(*ssa.Alloc); ok && localKey(a) == key {
+				owns = true
+			}
+		}
+	}
+	if !owns {
+		return ""
+	}
+	if iff, ok := h.Instrs[len(h.Instrs)-1].(*ssa.If); ok {
+		if b, ok := iff.Cond.(*ssa.BinOp); ok && b.Op == token.LSS {
+			if v, ok := f.vals[b.Y]; ok {
+				return v.T
+			}
+			if c, ok := b.Y.(*ssa.Const); ok {
+				return f.constant(c).T
+			}
+		}
+	}
+	return ""
 }
 
 func (f *fnState) block(b *ssa.BasicBlock) {
@@ -964,6 +1031,8 @@ func (f *fnState) block(b *ssa.BasicBlock) {
 			f.cur = f.cur.clone()
 			f.curPos = firstPos(s)
 			ctx := f.specCtx(nil)
+			ctx.locals = true
+			ctx.invLoop = l
 			for _, c := range f.invariantsFor(l) {
 				t := f.specBool(c.E, ctx)
 				f.oblige("INV-PRES", c.Label, fmt.Sprintf("loop %d: %s", l.ordinal, normSite(c.Text)), t)
@@ -1004,7 +1073,9 @@ func (f *fnState) siteAsserts(ins ssa.Instruction, where string) {
 				continue
 			}
 		}
-		t := f.specBool(a.Clause.E, f.specCtx(nil))
+		actx := f.specCtx(nil)
+		actx.locals = true
+		t := f.specBool(a.Clause.E, actx)
 		f.oblige("ASSERT", a.Clause.Label, fmt.Sprintf("%s %q: %s", where, a.Needle, normSite(a.Clause.Text)), t)
 	}
 }
